@@ -33,6 +33,67 @@ pub fn index1(items: &[Vec<u8>]) -> Vec<u8> {
     out
 }
 
+/// A minimal OpenType font with a CFF (version 1) table: glyph 0 is an empty .notdef, the others are `charstrings`;
+/// the private dict has blue zones and standard stem widths so that the hinter has something to align to.
+pub fn cff_font(charstrings: &[Vec<u8>], gsubrs: &[Vec<u8>], lsubrs: Option<&[Vec<u8>]>) -> Vec<u8> {
+    use write_fonts::tables::{head::Head, hhea::Hhea, hmtx::{Hmtx, LongMetric}, maxp::Maxp};
+    let int5 = |v: u32| -> Vec<u8> { let mut o = vec![29u8]; o.extend(v.to_be_bytes()); o };
+    let num = |v: i32| -> Vec<u8> { if (-107..=107).contains(&v) { vec![(v + 139) as u8] } else { let mut o = vec![28u8]; o.extend((v as i16).to_be_bytes()); o } };
+    let mut glyphs: Vec<Vec<u8>> = vec![vec![14]];
+    glyphs.extend(charstrings.iter().cloned());
+    let cs_index = index1(&glyphs);
+    let g_index = index1(gsubrs);
+    // private dict: BlueValues, StdHW, StdVW, (Subrs)
+    let mut private: Vec<u8> = vec![];
+    for v in [-15, 15, 485, 15, 200, 15] {
+        private.extend(num(v));
+    }
+    private.push(6);
+    private.extend(num(50));
+    private.push(10);
+    private.extend(num(60));
+    private.push(11);
+    if lsubrs.is_some() {
+        let size = private.len() + 6;
+        private.extend(int5(size as u32));
+        private.push(19);
+    }
+    let l_index = lsubrs.map(index1).unwrap_or_default();
+    let header = vec![1u8, 0, 4, 4];
+    let name_index = index1(&[b"A".to_vec()]);
+    let string_index = index1(&[]);
+    let top_len = 6 + 11;
+    // top dict INDEX with one object of top_len bytes: count(2) offSize(1) offsets(2) data
+    let top_index_len = 2 + 1 + 2 + top_len;
+    let cs_off = header.len() + name_index.len() + top_index_len + string_index.len() + g_index.len();
+    let priv_off = cs_off + cs_index.len();
+    let mut top: Vec<u8> = vec![];
+    top.extend(int5(cs_off as u32));
+    top.push(17);
+    top.extend(int5(private.len() as u32));
+    top.extend(int5(priv_off as u32));
+    top.push(18);
+    assert_eq!(top.len(), top_len);
+    let mut cff = header;
+    cff.extend(name_index);
+    cff.extend(index1(&[top]));
+    cff.extend(string_index);
+    cff.extend(g_index);
+    cff.extend(cs_index);
+    cff.extend(private);
+    cff.extend(l_index);
+    let n = glyphs.len() as u16;
+    let head = Head { units_per_em: 1000, magic_number: 0x5F0F3CF5, ..Default::default() };
+    let hhea = Hhea::new(800.into(), (-200).into(), 0.into(), 1000.into(), 0.into(), 0.into(), 1000.into(), 1, 0, 0, n);
+    let mut fb = write_fonts::FontBuilder::new();
+    fb.add_table(&head).unwrap();
+    fb.add_table(&hhea).unwrap();
+    fb.add_table(&Maxp::new(n)).unwrap();
+    fb.add_table(&Hmtx::new((0..n).map(|_| LongMetric::new(600, 0)).collect(), vec![])).unwrap();
+    fb.add_raw(font_types::Tag::new(b"CFF "), cff);
+    fb.build()
+}
+
 #[derive(Default)]
 pub struct Rec(pub Vec<Vec<i64>>);
 impl CommandSink for Rec {
@@ -237,6 +298,49 @@ pub fn main(args: &[String]) {
                     }
                 }
             });
+        }
+        Some("skrifa") => {
+            // the same programs as glyphs of synthetic CFF fonts (up to 40 programs with the same subroutines per font), driven
+            // through skrifa: unscaled, scaled and hinted draws with every engine and target, hostile sizes and glyph ids
+            let path = arg_after(args, "--cases").expect("--cases");
+            let every: usize = arg_after(args, "--every").map(|s| s.parse().unwrap()).unwrap_or(1);
+            let mut groups: std::collections::BTreeMap<String, Vec<Value>> = Default::default();
+            let mut k = 0usize;
+            fvcore::tlc_stream(&path, &["CASE"], |_, c| {
+                k += 1;
+                if k % every != 0 || c["bk"].as_array().map(|a| !a.is_empty()).unwrap_or(false) {
+                    return;
+                }
+                groups.entry(format!("{}|{}|{}", c["g"], c["l"], c["hl"])).or_default().push(c);
+            });
+            let mut drawn = 0u64;
+            for (_, cases) in groups {
+                for chunk in cases.chunks(40) {
+                    let c0 = &chunk[0];
+                    let l = subrs_of(&c0["l"]);
+                    let progs: Vec<Vec<u8>> = chunk.iter().map(|c| bytes_of(&c["main"])).collect();
+                    let font = cff_font(&progs, &subrs_of(&c0["g"]), if c0["hl"].as_bool().unwrap_or(false) { Some(&l) } else { None });
+                    rep.evaluations += chunk.len() as u64;
+                    {
+                        use skrifa::MetadataProvider;
+                        let f = read_fonts::FontRef::new(&font).expect("synthetic CFF font opens");
+                        if f.outline_glyphs().format() != Some(skrifa::outline::OutlineGlyphFormat::Cff) {
+                            panic!("synthetic CFF font is not recognised as CFF by skrifa");
+                        }
+                    }
+                    let case = json!({"kind": "charstring-skrifa", "g": c0["g"], "l": c0["l"], "hl": c0["hl"], "mains": chunk.iter().map(|c| c["main"].clone()).collect::<Vec<_>>()});
+                    match crate::drive::drive_bytes(&font, 2, 60) {
+                        crate::drive::Verdict::Done { oks, .. } => {
+                            drawn += oks;
+                            rep.distinct += chunk.len() as u64;
+                        }
+                        crate::drive::Verdict::Panic(p) => rep.violation(&format!("drawing charstrings through skrifa panicked: {p}"), case),
+                        crate::drive::Verdict::Hang => rep.violation("drawing charstrings through skrifa did not finish within 60 s", case),
+                    }
+                }
+            }
+            rep.set("successful_calls", json!(drawn));
+            rep.traces = rep.evaluations;
         }
         Some("corpus") => {
             use read_fonts::TableProvider;
